@@ -50,6 +50,16 @@ def run_real_program(spec, ops):
             outs.append(out)
             continue
         ix = op['ix']
+        if op.get('prebuf') is not None and ref is not None:
+            # history of one mutable index object: the caller's list served another selection (same length, other
+            # rows) on this frame just before; to_py_index refills the SAME list object for this step
+            pre = dict(ix, **{'is': list(op['prebuf'])})
+            try:
+                bad = frame.compare_to_ref(cur[ragged.to_py_index(pre, shared)], frame.ref_select(ref, pre))
+                if bad is not None:
+                    findings.append((k, bad, None, None))
+            except Exception as e:
+                findings.append((k, f'raises where the list selection is defined ({type(e).__name__})', None, None))
         pyix = ragged.to_py_index(ix, shared)        # the same `share` id = the same tensor object as before
         try:
             new = cur[pyix]
@@ -108,7 +118,11 @@ class C07(frame.Findings, core.Check):
     driver = 'drv_c07'
     quick_cases = 4000
     thorough_cases = 30000
-    rule = ('hardening families: special values (+-inf, -0.0, 2^24+2, -1.0, integers 2^24+1 / 2^40) and float64 features; dict '
+    rule = ('targets of every legal kind: absent, dense 1-D float / int, ragged MultiNestedTensor (18% of the frames; 1-3 '
+            'columns, empty cells, all-empty rows, special values; what Dataset.materialize() produces for a '
+            'sequence_numerical target) - frames with a ragged target are judged by the direct oracle only; the caller\'s '
+            'ONE mutable list object refilled and re-used as row index (also: used for another selection of the same '
+            'length on the same frame just before); hardening families: special values (+-inf, -0.0, 2^24+2, -1.0, integers 2^24+1 / 2^40) and float64 features; dict '
             'features in either key order; index tensors int64 / int32 / non-contiguous views; the SAME index tensor object '
             'in several steps of a chain (caller\'s tensor compared afterwards); scale (60 / 120 / 300 frames at stress level '
             '0 / 1 / 2): rows from the ladder (<= 259 / 4 099) with all-empty ragged rows, long cells / wide embeddings, long '
@@ -125,7 +139,9 @@ class C07(frame.Findings, core.Check):
         'to satisfy it, MultiNestedTensor/MultiEmbeddingTensor satisfy it by the C05 refinement theorems (tied by the '
         'C05 and this correspondence run on the concrete MNT.select/MET.select dispatch)',
         '"the source frame is left unchanged" is checked on the real objects (representation snapshot before/after every step)',
-        'y is modelled as a 1-D tensor; dict-valued features have at least one key',
+        'y is modelled as a 1-D tensor; dict-valued features have at least one key; a ragged (MultiNestedTensor) target '
+        'cannot be expressed in the model: such frames are judged by the direct oracle only (nested-list reference of the '
+        'target rows, counted as oracle_only_cases)',
         'PyTorch does not bounds-check an integer index list against the zero-element dummy tensor of a frame without '
         'features: TensorFrame({}, {}, num_rows=5)[[7]] has length 1 (modelled by dummyLen, excluded from the oracle)',
     )
@@ -177,6 +193,11 @@ class C07(frame.Findings, core.Check):
             ops.append({'op': 'sel', 'ix': ix})
             if rng.random() < .1:
                 ops[-1]['twice'] = True
+            if ix['t'] == 'list' and ix.get('as') == 'list' and rng.random() < .35:
+                # the program's ONE mutable list object, refilled before every use (mini-batch loops re-using a buffer)
+                ix['buf'] = 0
+                if rows >= 1 and 1 <= len(ix['is']) <= 64 and ragged._valid_for(ix, rows) and rng.random() < .6:
+                    ops[-1]['prebuf'] = [rng.randint(-rows, rows - 1) for _ in ix['is']]
             k = ragged.py_len(ix, rows)
             if k is None:
                 break
@@ -192,17 +213,25 @@ class C07(frame.Findings, core.Check):
             if i < self.N_HUGE[lv]:
                 from harness import stress
                 spec = frame.gen_frame_scaled(rng, lv, 'rows', R=rng.choice(stress.LADDER_BIG) + rng.choice([0, 1, 2]),
-                                              pool='full')
+                                              pool='full', ragged_y=True)
                 yield {'frame': spec, 'ops': self.gen_program(rng, spec, 2, big=True), 'oracle_only': True}
             elif i < n_heavy:
-                spec = frame.gen_frame_scaled(rng, lv, 'heavy', pool='full')
-                yield {'frame': spec, 'ops': self.gen_program(rng, spec, 2, big=True, first_gathers=True)}
+                spec = frame.gen_frame_scaled(rng, lv, 'heavy', pool='full', ragged_y=True)
+                yield self.case_of(spec, self.gen_program(rng, spec, 2, big=True, first_gathers=True))
             elif i < n_heavy + n_scale:
-                spec = frame.gen_frame_scaled(rng, lv, rng.choice(['rows', 'rows', 'rows', 'longcells', 'cols']), pool='full')
-                yield {'frame': spec, 'ops': self.gen_program(rng, spec, 3, big=True)}
+                spec = frame.gen_frame_scaled(rng, lv, rng.choice(['rows', 'rows', 'rows', 'longcells', 'cols']), pool='full',
+                                              ragged_y=True)
+                yield self.case_of(spec, self.gen_program(rng, spec, 3, big=True))
             else:
-                spec = frame.gen_frame(rng, pool='full')
-                yield {'frame': spec, 'ops': self.gen_program(rng, spec)}
+                spec = frame.gen_frame(rng, pool='full', ragged_y=True)
+                yield self.case_of(spec, self.gen_program(rng, spec))
+
+    @staticmethod
+    def case_of(spec, ops):
+        case = {'frame': spec, 'ops': ops}
+        if not frame.model_expressible(spec):
+            case['oracle_only'] = True         # ragged target: the model's target is a 1-D tensor
+        return case
 
     def real(self, case):
         outs, findings = run_real_program(case['frame'], case['ops'])
@@ -239,7 +268,7 @@ class C07(frame.Findings, core.Check):
         spec = case['frame']
         R = spec['R']
         rows = str(R) if R <= 7 else '8..16' if R <= 16 else '17..256' if R <= 256 else '257..1024' if R <= 1024 else '1025+'
-        labs = [f"rows:{rows}", f"stypes:{len(spec['feats'])}", f"y:{'none' if spec['y'] is None else spec['y']['payload']}",
+        labs = [f"rows:{rows}", f"stypes:{len(spec['feats'])}", f"y:{'none' if spec['y'] is None else ('ragged-' if frame.ragged_y(spec) else 'dense-') + spec['y']['payload']}",
                 f"explicit_num_rows:{spec['num_rows'] is not None}", f"steps:{len(case['ops'])}"]
         labs += [f"kind:{ft['kind']}" for ft in spec['feats']]
         if any(ft['payload'] == 'float64' for ft in spec['feats']):
@@ -250,6 +279,8 @@ class C07(frame.Findings, core.Check):
             labs.append('dict:other-key-order')
         if not spec['feats']:
             labs.append('feature-less')
+        if frame.ragged_y(spec):
+            labs.append('target:ragged(oracle-only)' + (f":cols={spec['y']['C']}" if spec['y']['C'] > 1 else ''))
         if spec.get('scaled'):
             labs.append(f"scale:{spec['scaled']}")
         if R >= 257:
@@ -279,6 +310,8 @@ class C07(frame.Findings, core.Check):
                     labs.append('scale:index-length>=64' if n < 1025 else 'scale:index-length>=1025')
                 if 'share' in ix:
                     seen[ix['share']] = seen.get(ix['share'], 0) + 1
+                if 'buf' in ix:
+                    labs.append('alias:list-buffer-reused' + ('+refilled-between-two-selections' if 'prebuf' in op else ''))
                 if res == 'ok':
                     nv = max([len(m['values']) for _, f in o['ok'].get('feats', []) for m in
                               ([f] if f['k'] == 'mnt' else [mm for _, mm in f['d']] if f['k'] == 'dict' else [])
